@@ -1,6 +1,7 @@
 import Operon.Lemmas.C14
 import Operon.Lemmas.C15
 import Operon.Lemmas.C14Tr
+import Operon.Lemmas.C14Held
 import Operon.Gen.CoordTranslated
 /-!
 # C14 — coordinated operations release every resource on every exit path
@@ -56,6 +57,31 @@ theorem c14_unobtained_untouched (s : Sys) (op : Nat) (prio : Int) (req : List N
     (hnever : ∀ res, Ev.acq r (some res) ∈ (exec s op prio req adv).log → res = .blocked) :
     (exec s op prio req adv).sys.locks r = some l :=
   untouched_exec s op prio req adv r l hl ⟨hforeign, hsorted, hnotwaiting⟩ hact hnever
+
+/-- **What somebody else holds stays theirs through the whole call** — in particular through a call made from inside
+    that somebody's own work function (a nested operation) or by a second thread.  A registered resource `r` that is
+    owned by another operation `o` and does not allow preemption: every attempt the call makes on it is answered
+    BLOCKED, and when the call returns — however it ends — the lock is exactly what it was (owner `o`, owner
+    priority, hold count, waiting list), both through `execute_operation` and through `IntegratedCell.execute`.  No
+    hypothesis on the outcome of the call or on what it requests; assumed of the lock: the calling operation is not
+    in its waiting list and the list is sorted (`_add_to_waiting`'s invariant); of the callbacks: `Adv.SelfOnly` (a
+    callback that kills `o` or shuts the system down legitimately frees `o`'s locks).  With a preemptable lock and a
+    higher priority the caller does take it: that is what `allow_preemption` means (example below). -/
+theorem c14_held_resource_survives_other_calls (s : Sys) (op : Nat) (prio : Int) (req : List Nat) (adv : Adv)
+    (post : PostOut) (r o : Nat) (l : Lock)
+    (hl : s.locks r = some l) (ho : l.owner = some o) (hne : o ≠ op) (hp : l.preempt = false)
+    (hsorted : SortedDesc l.waiting) (hnotwaiting : ∀ e ∈ l.waiting, e.1 ≠ op) (hact : adv.SelfOnly op) :
+    (∀ res, Ev.acq r (some res) ∈ (exec s op prio req adv).log → res = .blocked) ∧
+    (exec s op prio req adv).sys.locks r = some l ∧ Owns (exec s op prio req adv).sys o r ∧
+    (cellExecute s op prio req adv post).sys.locks r = some l := by
+  obtain ⟨h1, h2⟩ := held_exec s op prio req adv r o l hl ho hne hp hsorted hnotwaiting hact
+  refine ⟨h1, h2, ⟨l, h2, ho⟩, ?_⟩
+  have hsys : (cellExecute s op prio req adv post).sys = (exec s op prio req adv).sys := by
+    simp only [cellExecute]
+    split
+    · cases post <;> rfl
+    · rfl
+  rw [hsys]; exact h2
 
 /-- an unregistered id stays unregistered (nothing is created on the way) -/
 theorem c14_unregistered_stays_unregistered (s : Sys) (c : Ctx) (r : Nat) (h : s.locks r = none) :
@@ -570,6 +596,15 @@ example : (exec s1 1 0 [1, 2] advOk).success = false ∧
     (exec s1 1 0 [1, 2] advOk).log = [.cp 0 true, .acq 1 (some .acquired), .acq 2 (some .blocked), .abort] ∧
     (exec s1 1 0 [1, 2] advOk).sys.locks 2 = s1.locks 2 ∧
     ((exec s1 1 0 [1, 2] advOk).sys.locks 1).map (·.owner) = some none := by decide
+
+/-- a system in which op 7 owns r1 (not preemptable): the hypotheses of `c14_held_resource_survives_other_calls` hold
+    for a call of op 1 — whatever its priority — that asks for r1: it is blocked and r1 is untouched -/
+private def s2 : Sys := (acquire (s0.start 7 1).1 (s0.start 7 1).2 1).1
+
+example : (s2.locks 1).map (fun l => (l.owner, l.preempt, l.waiting)) = some (some 7, false, []) ∧
+    (exec s2 1 9 [2, 1] advOk).log = [.cp 0 true, .acq 2 (some .acquired), .acq 1 (some .blocked), .abort] ∧
+    (exec s2 1 9 [2, 1] advOk).sys.locks 1 = s2.locks 1 ∧
+    (cellExecute s2 1 9 [2, 1] advOk .ok).sys.locks 1 = s2.locks 1 := by decide
 
 /-- preemption: with priority 3 the operation takes r2 from op 7, commits, and r2 is free afterwards -/
 example : (exec s1 1 3 [2] advOk).success = true ∧
